@@ -2515,7 +2515,7 @@ fn run_serde(case: &Value) -> Value {
     );
     let _ = t2;
     json!({"status": "ok", "obs": obs, "written": {"config": t1["config.toml"], "audits": t1["audits.toml"], "imports": t1["imports.lock"]},
-           "values": store_json(&s0)})
+           "values": store_json(&s0), "values_reread": r1b.as_ref().ok().map(store_json)})
 }
 
 fn panic_message(p: &Box<dyn std::any::Any + Send>) -> String {
